@@ -164,6 +164,7 @@ func init() {
 			func(c *Ctx) { c.ruleLockset("R-LOCKSET", c.lockTargets("atp", "schema")); c.R.Floor("R-LOCKSET", 15) },
 			func(c *Ctx) { c.ruleExactlyOne("R-EXACTLYONE") },
 			func(c *Ctx) { c.ruleStepDom("R-DOM") },
+			func(c *Ctx) { c.ruleRunID("R-RUNID", c.scopePkg("atp", "schema")); c.R.Floor("R-RUNID", 25) },
 		},
 	})
 	register(&PropSpec{
